@@ -228,6 +228,26 @@ def rule_name_guards(ctx: Ctx):
                 # the value is escaped before it is interpolated
                 esc = any(isinstance(s, ast.Assign) and norm(s.targets[0]) == W and f"re.escape({W}" in norm(s.value) for s in stmts_local(loop.body)) if loop else False
                 # ... or in place, inside the appended alternative, with no other use of the raw value there
+                # ... or word by word: every use of the raw name sits in `re.escape(w) for w in <name>.split()`, whether that comprehension is
+                # joined at once, kept in a local list and joined later, or written inside the appended alternative itself
+                if not esc:
+                    def _esc_words(g_):
+                        return isinstance(g_, (ast.GeneratorExp, ast.ListComp)) and len(g_.generators) == 1 and isinstance(g_.generators[0].target, ast.Name) \
+                            and norm(g_.elt) == f"re.escape({g_.generators[0].target.id})" and not g_.generators[0].ifs \
+                            and norm(g_.generators[0].iter) in (f"{W}.split()", f"{W}.strip().split()")
+
+                    def _safe_value(v_):
+                        if _esc_words(v_):
+                            return True
+                        return isinstance(v_, ast.Call) and isinstance(v_.func, ast.Attribute) and v_.func.attr == "join" and isinstance(v_.func.value, ast.Constant) \
+                            and len(v_.args) == 1 and _esc_words(v_.args[0])
+                    safe = {s_.targets[0].id for s_ in (stmts_local(loop.body) if loop else []) if isinstance(s_, ast.Assign) and len(s_.targets) == 1
+                            and isinstance(s_.targets[0], ast.Name) and _safe_value(s_.value)}
+                    inline = [g_ for g_ in ast.walk(n.args[0]) if _esc_words(g_)]
+                    raw = [x for x in ast.walk(n.args[0]) if isinstance(x, ast.Name) and x.id == W and not any(any(y is x for y in ast.walk(g_)) for g_ in inline)]
+                    used = {x.id for x in ast.walk(n.args[0]) if isinstance(x, ast.Name)}
+                    if not raw and (inline or (safe & used)):
+                        esc = True
                 if not esc and f"re.escape({W}" in norm(n.args[0]):
                     raw_uses = [x for x in ast.walk(n.args[0]) if isinstance(x, ast.Name) and x.id == W and not (
                         isinstance(getattr(x, "parent", None), ast.Call) and dotted(x.parent.func) == "re.escape")
@@ -383,7 +403,14 @@ def rule_rebasing(ctx: Ctx):
            f"offsets given to the reference citation are the translated ones (others: {bad})", node=ctor[0] if ctor else fn, mod=fm)
     # the token text is the plain text at the plain span
     tok = [c for c in ctor if dotted(c.func) == "CaseReferenceToken"]
-    okt = any(any(kw.arg == "data" and ".plain_text[" in norm(kw.value) for kw in c.keywords) for c in tok)
+    def _plain_slice(v):
+        if ".plain_text[" in norm(v):
+            return True
+        if isinstance(v, ast.Name):  # through a local that holds the slice
+            ds = [x.value for x in stmts_local(fn.body) if isinstance(x, ast.Assign) and len(x.targets) == 1 and norm(x.targets[0]) == v.id]
+            return len(ds) == 1 and isinstance(ds[0], ast.Subscript) and norm(ds[0].value).endswith(".plain_text") and isinstance(ds[0].slice, ast.Slice)
+        return False
+    okt = any(any(kw.arg == "data" and _plain_slice(kw.value) for kw in c.keywords) for c in tok)
     ctx.ob("R-C19-5", "find.find_reference_citations_from_markup/token-text-from-plain", okt,
            "the reference token's text is sliced from the cleaned plain text at its plain offsets", node=tok[0] if tok else fn, mod=fm, nontrivial=False)
 
